@@ -11,7 +11,7 @@
    decidable condition on the abstract state): C23_redis_refines_spec_partial,
    C23_equiv, C23_redis_failed_create_noop_partial. *)
 From Verif Require Import Store.KVPrims Store.Ops Store.Spec Store.EtcdModel Store.RedisModel Store.Case
-  Store.EtcdProofs Store.RedisProofs Store.C23Proofs Store.KeyStrings Store.RedisGlob Store.ScanOracle Store.Concurrent Store.ConcurrentProofs.
+  Store.EtcdProofs Store.RedisProofs Store.C23Proofs Store.KeyStrings Store.RedisGlob Store.ScanOracle Store.Concurrent Store.ConcurrentProofs Store.BatchOp Store.BatchOpProofs.
 
 Theorem C23_etcd_refines_spec : etcd_refines_spec_stmt.
 Proof. exact etcd_refines_spec_holds. Qed.
@@ -105,3 +105,20 @@ Print Assumptions C23_conc_etcd_decr_delete_window_closed.
 Theorem C23_conc_redis_update_window_refuted : redis_update_window_stmt.
 Proof. exact redis_update_window_holds. Qed.
 Print Assumptions C23_conc_redis_update_window_refuted.
+
+(* ---- doBatchOp and its split into commits of at most 125 operations: a batch
+   of at most 125 keys is exactly the single transaction of the etcd model, for
+   every commit order (all conditioned batches of the Store methods have at most
+   5 keys); a condition-free batch of any size (UpdateNodes) leaves the same
+   key-value content as one transaction, for every commit order ---- *)
+Theorem C23_batch_small_is_one_txn : small_batch_stmt.
+Proof. exact small_batch_holds. Qed.
+Print Assumptions C23_batch_small_is_one_txn.
+
+Theorem C23_batch_conditioned_small : conditioned_batches_small_stmt.
+Proof. exact conditioned_batches_small_holds. Qed.
+Print Assumptions C23_batch_conditioned_small.
+
+Theorem C23_batch_big_put_any_order : big_put_stmt.
+Proof. exact big_put_holds. Qed.
+Print Assumptions C23_batch_big_put_any_order.
